@@ -273,3 +273,57 @@ def run_shared_ram(args):
         except Exception as e:
             problems.append({'msg': 'shared RAM layer scenario raised ' + type(e).__name__ + ': ' + str(e)[:150]})
     return stats, problems
+
+
+def run_columns_faults(args):
+    """C08 with failures: a user function fails for one key while a shard is generated; a later call (no failure) returns; from
+    then on the call has returned through the column cache: a REBUILT pipeline on the same storage executes nothing upstream for
+    that key (what RAM holds must be on disk too)"""
+    seed, n = args
+    from .pipeline import Builder
+    from .sym import SymWorld, UserFault
+    scratch = tempfile.mkdtemp(prefix='cv-colf-', dir=paths.SCRATCH)
+    problems, stats = [], {'fault_cases': 0, 'calls': 0}
+    try:
+        for c in range(n):
+            rng = random.Random(seed * 9343 + c)
+            root = tempfile.mkdtemp(dir=scratch)
+            ids = [f'i{k}' for k in range(rng.randint(3, 7))]
+            size = rng.choice([None, 2, 3, 4])
+            src = {'k': 'source', 'cls': 'CF', 'ids': ids, 'fields': {'x': {'args': ['i']}}, 'params': {}, 'cargs': {}, 'defaults': {}}
+            desc = {'k': 'chain', 'flavour': 'chain', 'layers': [src, {'k': 'columns', 'names': ['x'], 'root': 0, 'shard': size}]}
+            world = SymWorld()
+            world.fault_class = UserFault
+            try:
+                p = Builder(world, roots=[root]).layer(desc)
+                key = rng.choice(ids)
+                # the j-th execution of the user function during the first call fails
+                world.fail_at = {world.serial + rng.randint(1, len(ids))}     # +0 is the ids listing
+                try:
+                    p.x(key)
+                    failed = False
+                except UserFault:
+                    failed = True
+                world.fail_at = set()
+                later = rng.sample(ids, min(len(ids), 3))
+                vals = {k2: canon(val_to_json(p.x(k2), world)) for k2 in later}
+                stats['fault_cases'] += 1
+                for k2 in later:
+                    if vals[k2] != canon({'app': ['CF.x', [k2], [], []]}):
+                        problems.append({'desc': desc, 'msg': f'after a failed shard generation x({k2!r}) returned {vals[k2][:100]}'})
+                b2 = Builder(world, roots=[root])
+                p2 = b2.layer(desc)
+                mark = world.mark()
+                for k2 in later:
+                    p2.x(k2)
+                    stats['calls'] += 1
+                ex = sorted({c_[1][0] for c_ in world.since(mark) if c_[0] == 'CF.x'})
+                if ex:
+                    problems.append({'desc': desc, 'failed_first': failed, 'keys': later,
+                                     'msg': f'x{tuple(later)} had returned through the column cache (after a failed first attempt: {failed}); a rebuilt pipeline on '
+                                            f'the same storage executed the upstream function again for {ex}'})
+            except Exception as e:
+                problems.append({'desc': desc, 'msg': 'raised ' + type(e).__name__ + ': ' + str(e)[:200]})
+    finally:
+        shutil.rmtree(scratch, ignore_errors=True)
+    return stats, problems
